@@ -121,10 +121,146 @@ func rollbackProbe(g *sim.G, label string) []*sim.Op {
 		"PauseSendingAndReceivingMessages", "UnpauseSendingAndReceivingMessages", "UpdatePauser", "UpdateAttesterManager", "UpdateTokenController", "UpdateOwner"})
 	b := failingMsg(g, label+"/fail")
 	ops := []*sim.Op{sim.Multi(a, b)}
-	if g.Pct(label+"/again", 60) {
+	ops = append(ops, followUps(g, label+"/use", a.SdkMsgs()[0])...)
+	if g.Pct(label+"/again", 50) {
 		ops = append(ops, cloneOp(a))
 	}
 	return ops
+}
+
+// followUps draws operations that *use* the piece of state a (rolled-back) administrative message
+// touched: whatever the module kept from the discarded transaction shows up in their outcome.
+func followUps(g *sim.G, label string, a sdk.Msg) []*sim.Op {
+	m := g.W.Model
+	by := sim.Acct(g.Acct(label + "/by"))
+	var ops []*sim.Op
+	depositTo := func(dom uint32, around *big.Int) *sim.Op {
+		amt := big.NewInt(int64(g.Int(label+"/amt", 1, 50)))
+		if around != nil {
+			amt = new(big.Int).Add(around, big.NewInt(int64(g.Int(label+"/d", -1, 1))))
+			if amt.Sign() <= 0 {
+				amt = big.NewInt(1)
+			}
+			if amt.BitLen() > 256 {
+				amt = new(big.Int).Set(sim.Max256)
+			}
+		}
+		return sim.TxOp("dep", &types.MsgDepositForBurn{From: by, Amount: sim.Int(amt), DestinationDomain: dom, MintRecipient: sim.Pad32([]byte{9, 9}), BurnToken: m.L.Denom})
+	}
+	recvFrom := func(dom uint32, tok []byte) *sim.Op {
+		yes := true
+		in := g.Inbound(label+"/in", sim.InboundOpts{ToModule: &yes, Src: &dom, Submitter: by})
+		if tok != nil && len(in.Msg) == 248 {
+			copy(in.Msg[116+4:116+36], sim.Pad32(tok))
+		}
+		att := g.W.HonestAttestation(in.Msg, attest.SigStyle{})
+		if att == nil {
+			att = []byte{}
+		}
+		return sim.TxOp("recv", &types.MsgReceiveMessage{From: by, Message: in.Msg, Attestation: att}).WithMeta("module", "1")
+	}
+	switch x := a.(type) {
+	case *types.MsgAddRemoteTokenMessenger:
+		ops = append(ops, depositTo(x.DomainId, nil), recvFrom(x.DomainId, nil))
+	case *types.MsgRemoveRemoteTokenMessenger:
+		ops = append(ops, depositTo(x.DomainId, nil), recvFrom(x.DomainId, nil))
+	case *types.MsgLinkTokenPair:
+		ops = append(ops, recvFrom(x.RemoteDomain, x.RemoteToken))
+	case *types.MsgUnlinkTokenPair:
+		ops = append(ops, recvFrom(x.RemoteDomain, x.RemoteToken))
+	case *types.MsgSetMaxBurnAmountPerMessage:
+		if ds := g.DomainsWithMessenger(); len(ds) > 0 && !x.Amount.IsNil() {
+			ops = append(ops, depositTo(ds[0], x.Amount.BigInt()))
+			if lim, ok := m.Limits[strings.ToLower(x.LocalToken)]; ok {
+				ops = append(ops, depositTo(ds[0], lim))
+			}
+		}
+	case *types.MsgUpdateMaxMessageBodySize:
+		body := g.Bytes(label+"/body", int(minU64(x.MessageSize+1, 300)))
+		ops = append(ops, sim.TxOp("send", &types.MsgSendMessage{From: by, DestinationDomain: 0, Recipient: sim.Pad32([]byte{5}), MessageBody: body}))
+		if ds := g.DomainsWithMessenger(); len(ds) > 0 {
+			ops = append(ops, depositTo(ds[0], nil))
+		}
+	case *types.MsgEnableAttester, *types.MsgDisableAttester, *types.MsgUpdateSignatureThreshold:
+		// an attestation by the set as the rolled-back change would have left it
+		var want []*attest.Key
+		ks := g.W.EnabledKeys()
+		t := int(m.Thr)
+		switch y := a.(type) {
+		case *types.MsgEnableAttester:
+			if k := sim.KeyOfSpelling(y.Attester); k >= 0 {
+				want = append(want, attest.K(k))
+			}
+			for _, k := range ks {
+				if len(want) < t {
+					want = append(want, k)
+				}
+			}
+		case *types.MsgDisableAttester:
+			if k := sim.KeyOfSpelling(y.Attester); k >= 0 {
+				want = append(want, attest.K(k))
+			}
+			for _, k := range ks {
+				if len(want) < t && (len(want) == 0 || k.Idx != want[0].Idx) {
+					want = append(want, k)
+				}
+			}
+		case *types.MsgUpdateSignatureThreshold:
+			for _, k := range ks {
+				if len(want) < int(y.Amount) {
+					want = append(want, k)
+				}
+			}
+		}
+		if len(want) > 0 && len(want) <= 16 {
+			no := false
+			in := g.Inbound(label+"/in", sim.InboundOpts{ToModule: &no, Submitter: by})
+			ops = append(ops, sim.TxOp("recv", &types.MsgReceiveMessage{From: by, Message: in.Msg, Attestation: attest.Attest(in.Msg, want, attest.SigStyle{})}))
+			// and a replacement of an own (forged, A3 lifted) message attested the same way
+			om := &refcodec.Message{Version: 0, Source: 4, Dest: 1, Nonce: uint64(g.Int(label+"/n", 0, 1<<20)), Sender: sim.Pad32(sdk.MustAccAddressFromBech32(by)),
+				Recip: sim.Pad32([]byte{3}), Caller: make([]byte, 32), Body: []byte{1}}
+			ob, _ := refcodec.EncodeMessage(om)
+			ops = append(ops, sim.TxOp("replace", &types.MsgReplaceMessage{From: by, OriginalMessage: ob, OriginalAttestation: attest.Attest(ob, want, attest.SigStyle{}), NewMessageBody: []byte{2}, NewDestinationCaller: make([]byte, 32)}).WithMeta("orig", "forged-own"))
+		}
+	case *types.MsgPauseBurningAndMinting, *types.MsgUnpauseBurningAndMinting, *types.MsgPauseSendingAndReceivingMessages, *types.MsgUnpauseSendingAndReceivingMessages:
+		ops = append(ops, sim.TxOp("send", &types.MsgSendMessage{From: by, DestinationDomain: 0, Recipient: sim.Pad32([]byte{5}), MessageBody: []byte{1}}))
+		if ds := g.DomainsWithMessenger(); len(ds) > 0 {
+			ops = append(ops, depositTo(ds[0], nil))
+		}
+	case *types.MsgUpdatePauser:
+		ops = append(ops, sim.TxOp("admin:PauseBurningAndMinting", &types.MsgPauseBurningAndMinting{From: x.NewPauser}))
+	case *types.MsgUpdateAttesterManager:
+		ops = append(ops, sim.TxOp("admin:UpdateSignatureThreshold", &types.MsgUpdateSignatureThreshold{From: x.NewAttesterManager, Amount: uint32(len(m.Atts))}))
+	case *types.MsgUpdateTokenController:
+		ops = append(ops, sim.TxOp("admin:SetMaxBurnAmountPerMessage", &types.MsgSetMaxBurnAmountPerMessage{From: x.NewTokenController, LocalToken: m.L.Denom, Amount: sim.Int(big.NewInt(12345))}))
+	case *types.MsgUpdateOwner:
+		ops = append(ops, sim.TxOp("admin:AcceptOwner", &types.MsgAcceptOwner{From: x.NewOwner}))
+	}
+	// only submitters the transaction decoder accepts
+	var out []*sim.Op
+	for _, op := range ops {
+		if _, err := sdk.AccAddressFromBech32(sim.FromOf(op.SdkMsgs()[0])); err == nil {
+			out = append(out, op)
+		}
+	}
+	return out
+}
+
+func minU64(a, b uint64) uint64 {
+	if a < b {
+		return a
+	}
+	return b
+}
+
+// doubleReceiveProbe: the same receive twice in one transaction (the second copy is rejected, the SDK
+// discards both), then the same message alone.
+func doubleReceiveProbe(g *sim.G, label string) []*sim.Op {
+	op := g.RecvOp(label, 0)
+	if len(op.SdkMsgs()) != 1 {
+		return nil
+	}
+	return []*sim.Op{sim.Multi(op, cloneOp(op)), cloneOp(op).WithMeta("vary", "after-double-receive")}
 }
 
 // failingMsg draws a message that is certain to fail but, before failing, reads different parts of the
@@ -190,6 +326,12 @@ func (m Mix) next(g *sim.G) *sim.Op {
 		ops := rollbackProbe(g, "rb")
 		queueOps(g, ops[1:]...)
 		return ops[0]
+	}
+	if m.Rollback > 0 && m.Recv > 0 && g.Pct("doublereceive", 2) {
+		if ops := doubleReceiveProbe(g, "dr"); ops != nil {
+			queueOps(g, ops[1:]...)
+			return ops[0]
+		}
 	}
 	// an ownership transfer in flight: let the pending owner accept now and then (otherwise rare)
 	if p := g.W.Model.Pending; p != nil && m.Admin > 0 && len(m.AdminTypes) == 0 && g.Pct("accept-pending", 10) {
@@ -313,6 +455,9 @@ func (c *c02) Step(w *sim.World, s *sim.Step) *Viol {
 					c.failThenOK++
 				}
 			} else {
+				if !c.used[u] && len(s.Msgs) == 1 && strings.Contains(s.Res.Log, "nonce already used") {
+					return viol("C02", s.Idx, fmt.Sprintf("receive for (domain %d, nonce %d) rejected as already used although no receive for the pair succeeded and genesis does not list it", u.Domain, u.Nonce), "not reported as used", s.Res.Log)
+				}
 				if c.used[u] && s.Exp != nil && len(s.Exp.Why) == 1 && s.Exp.Why[0] == "P6-nonce-unused" {
 					c.replays++
 					if v := s.Op.Meta["vary"]; v != "" {
